@@ -320,6 +320,10 @@ impl Expression {
 impl ExecutableContent for Expression {
     fn execute(&self, datamodel: &mut dyn Datamodel, _fsm: &Fsm) -> bool {
         let r = datamodel.execute(&self.content);
+        if r.is_err() {
+            // W3C: an error in executable content places error.execution on the internal queue
+            datamodel.internal_error_execution();
+        }
         r.is_ok()
     }
 
@@ -348,7 +352,10 @@ impl ExecutableContent for Log {
                 datamodel.log(msg.lock().unwrap().to_string().as_str());
                 true
             }
-            Err(_msg) => false,
+            Err(_msg) => {
+                datamodel.internal_error_execution();
+                false
+            }
         }
     }
 
@@ -487,12 +494,15 @@ impl ExecutableContent for Cancel {
     /// the specified id. Note, however, that it can not be guaranteed to succeed, for example if
     /// the event has already been delivered by the time the \<cancel> tag executes.
     fn execute(&self, datamodel: &mut dyn Datamodel, _fsm: &Fsm) -> bool {
-        if let Ok(send_id) =
-            datamodel.get_expression_alternative_value(&str_to_source(self.send_id.as_str()), &self.send_id_expr)
-        {
-            get_global!(datamodel)
-                .delayed_send
-                .remove(&send_id.lock().unwrap().to_string());
+        match datamodel.get_expression_alternative_value(&str_to_source(self.send_id.as_str()), &self.send_id_expr) {
+            Ok(send_id) => {
+                get_global!(datamodel)
+                    .delayed_send
+                    .remove(&send_id.lock().unwrap().to_string());
+            }
+            Err(_) => {
+                datamodel.internal_error_execution();
+            }
         };
         true
     }
@@ -521,6 +531,7 @@ impl ExecutableContent for SendParameters {
             Ok(value) => value,
             Err(_) => {
                 // Error -> abort
+                datamodel.internal_error_execution();
                 return false;
             }
         };
@@ -529,6 +540,7 @@ impl ExecutableContent for SendParameters {
             Ok(value) => value,
             Err(_) => {
                 // Error -> abort
+                datamodel.internal_error_execution();
                 return false;
             }
         };
@@ -591,6 +603,7 @@ impl ExecutableContent for SendParameters {
             match datamodel.execute(&self.delay_expr) {
                 Err(_msg) => {
                     // Error -> Abort
+                    datamodel.internal_error_execution_for_event(&send_id, &fsm.caller_invoke_id);
                     return false;
                 }
                 Ok(delay) => parse_duration_to_milliseconds(&delay.lock().unwrap().to_string()),
